@@ -3,6 +3,8 @@ C11 — the action mask (`check_valid`) agrees with what `__call__` would refuse
 -/
 import PrimaiteModel.Model.Request
 import PrimaiteModel.Gen.RequestCore
+import PrimaiteModel.Model.Mask
+import PrimaiteModel.Gen.ActionMask
 namespace Primaite.Request
 
 /-- For every request tree, every validator valuation and every request: `check_valid` says `True` exactly when
@@ -95,3 +97,166 @@ theorem C11_gen_check_valid_shape :
     checkValidSteps = [.ifEmpty_false, .takeKey, .takeOptions, .ifMissing_false, .lookup,
                        .ifValidatorFalse_false, .ifManager_recurse, .return_true] := by decide
 end Primaite.Request
+
+/-! ### the mask is laid out by ACTION NUMBER (`PrimaiteGame.action_mask`), not by position in the file -/
+namespace Primaite.Mask
+
+theorem foldl_putBit_spec {α} (valid : α → Bool) : ∀ (l : List (Nat × α)) (m : List Bool),
+    (l.map (·.1)).Nodup → (∀ e ∈ l, e.1 < m.length) →
+    ∃ r, l.foldl (putBit valid) (some m) = some r ∧ r.length = m.length ∧
+      (∀ e ∈ l, r[e.1]? = some (valid e.2)) ∧ (∀ j, j ∉ l.map (·.1) → r[j]? = m[j]?) := by
+  intro l
+  induction l with
+  | nil => intro m _ _; exact ⟨m, rfl, rfl, by simp, by simp⟩
+  | cons e t ih =>
+    intro m hn hb
+    have he : e.1 < m.length := hb e (by simp)
+    simp only [List.map_cons, List.nodup_cons] at hn
+    have hb' : ∀ x ∈ t, x.1 < (m.set e.1 (valid e.2)).length := by
+      intro x hx; simpa using hb x (by simp [hx])
+    obtain ⟨r, hr, hlen, hw, hk⟩ := ih (m.set e.1 (valid e.2)) hn.2 hb'
+    refine ⟨r, ?_, ?_, ?_, ?_⟩
+    · simp only [List.foldl_cons, putBit, he, if_true]; exact hr
+    · simpa using hlen
+    · intro x hx
+      rcases List.mem_cons.mp hx with rfl | hx
+      · rw [hk _ hn.1]; simp [he]
+      · exact hw x hx
+    · intro j hj
+      simp only [List.map_cons, List.mem_cons, not_or] at hj
+      rw [hk j hj.2]
+      simp [Ne.symm hj.1]
+
+theorem WellNumbered.nodup {α} {amap : List (Nat × α)} (h : WellNumbered amap) : (amap.map (·.1)).Nodup :=
+  h.nodup_iff.mpr List.nodup_range
+
+theorem WellNumbered.lt {α} {amap : List (Nat × α)} (h : WellNumbered amap) : ∀ e ∈ amap, e.1 < amap.length := by
+  intro e he
+  have : e.1 ∈ List.range amap.length := h.subset (List.mem_map_of_mem (f := (·.1)) he)
+  simpa using this
+
+theorem WellNumbered.has {α} {amap : List (Nat × α)} (h : WellNumbered amap) (i : Nat) (hi : i < amap.length) :
+    ∃ a, (i, a) ∈ amap := by
+  have : i ∈ amap.map (·.1) := h.symm.subset (by simpa using hi)
+  rcases List.mem_map.mp this with ⟨e, he, rfl⟩
+  exact ⟨e.2, he⟩
+
+theorem actionOf_of_mem {α} : ∀ (amap : List (Nat × α)), (amap.map (·.1)).Nodup → ∀ e ∈ amap, actionOf amap e.1 = some e.2 := by
+  intro amap
+  induction amap with
+  | nil => intro _ e he; simp at he
+  | cons x t ih =>
+    intro hn e he
+    simp only [List.map_cons, List.nodup_cons] at hn
+    rcases List.mem_cons.mp he with rfl | he
+    · simp [actionOf]
+    · have hne : (x.1 == e.1) = false := by
+        simp only [beq_eq_false_iff_ne, ne_eq]
+        exact fun q => hn.1 (q ▸ List.mem_map_of_mem (f := (·.1)) he)
+      have := ih hn.2 e he
+      simp only [actionOf, List.find?_cons, hne] at this ⊢
+      exact this
+
+/-- `action_mask` never raises on a well-numbered map, has one bit per action number, and bit `i` is the verdict of
+`check_valid` on the request of THE ACTION THAT NUMBER `i` EXECUTES — wherever that entry stands in the file. -/
+theorem C11_mask_by_action_number {α} (valid : α → Bool) (amap : List (Nat × α)) (h : WellNumbered amap) :
+    ∃ r, actionMask valid amap = some r ∧ r.length = amap.length ∧
+      ∀ i, i < amap.length → ∃ a, actionOf amap i = some a ∧ r[i]? = some (valid a) := by
+  obtain ⟨r, hr, hlen, hw, _⟩ := foldl_putBit_spec valid amap (List.replicate amap.length true) h.nodup
+    (by intro e he; simpa using h.lt e he)
+  refine ⟨r, hr, by simpa using hlen, ?_⟩
+  intro i hi
+  obtain ⟨a, ha⟩ := h.has i hi
+  exact ⟨a, actionOf_of_mem amap h.nodup (i, a) ha, hw (i, a) ha⟩
+
+theorem WellNumbered.perm {α} {amap amap' : List (Nat × α)} (p : amap.Perm amap') (h : WellNumbered amap) : WellNumbered amap' := by
+  unfold WellNumbered at *
+  rw [← p.length_eq]
+  exact (p.map (·.1)).symm.trans h
+
+theorem actionOf_perm {α} {amap amap' : List (Nat × α)} (p : amap.Perm amap') (h : WellNumbered amap) (i : Nat) :
+    actionOf amap' i = actionOf amap i := by
+  by_cases hi : i < amap.length
+  · obtain ⟨a, ha⟩ := h.has i hi
+    rw [actionOf_of_mem amap h.nodup (i, a) ha, actionOf_of_mem amap' (h.perm p).nodup (i, a) (p.subset ha)]
+  · have h1 : actionOf amap i = none := by
+      simp only [actionOf, Option.map_eq_none_iff, List.find?_eq_none]
+      intro e he q; exact hi (by have := h.lt e he; simp at q; omega)
+    have h2 : actionOf amap' i = none := by
+      simp only [actionOf, Option.map_eq_none_iff, List.find?_eq_none]
+      intro e he q; exact hi (by have := (h.perm p).lt e he; rw [← p.length_eq] at this; simp at q; omega)
+    rw [h1, h2]
+
+/-- the order in which the file lists the entries of `action_map` does not change the mask -/
+theorem C11_mask_key_order_irrelevant {α} (valid : α → Bool) {amap amap' : List (Nat × α)} (p : amap.Perm amap') (h : WellNumbered amap) :
+    actionMask valid amap' = actionMask valid amap := by
+  obtain ⟨r, hr, hl, hb⟩ := C11_mask_by_action_number valid amap h
+  obtain ⟨r', hr', hl', hb'⟩ := C11_mask_by_action_number valid amap' (h.perm p)
+  rw [hr, hr']
+  congr 1
+  apply List.ext_getElem?
+  intro i
+  by_cases hi : i < amap.length
+  · obtain ⟨a, ha, hv⟩ := hb i hi
+    obtain ⟨a', ha', hv'⟩ := hb' i (by rw [← p.length_eq]; exact hi)
+    rw [actionOf_perm p h i, ha] at ha'
+    cases ha'
+    rw [hv, hv']
+  · have l1 : r'.length ≤ i := by rw [hl', ← p.length_eq]; omega
+    have l2 : r.length ≤ i := by rw [hl]; omega
+    rw [List.getElem?_eq_none l1, List.getElem?_eq_none l2]
+
+/-- what a mask laid out in FILE order (`[check_valid(…) for action in action_map.values()]`) would be -/
+def maskInFileOrder {α} (valid : α → Bool) (amap : List (Nat × α)) : Option (List Bool) := some (amap.map (fun e => valid e.2))
+
+/-- … and why that is wrong: a well-numbered map listed as `1, 0` gets the two bits the wrong way round. -/
+theorem C11_file_order_layout_counterexample :
+    WellNumbered [(1, "stop"), (0, "do-nothing")] ∧
+    actionMask (· == "do-nothing") [(1, "stop"), (0, "do-nothing")] = some [true, false] ∧
+    maskInFileOrder (· == "do-nothing") [(1, "stop"), (0, "do-nothing")] = some [false, true] := by
+  refine ⟨?_, by decide, by decide⟩
+  exact List.Perm.swap 0 1 []
+
+/-- non-vacuity: a map listed out of order is well numbered and its mask is computed without error -/
+example : WellNumbered [(2, 'c'), (0, 'a'), (1, 'b')] := by
+  show [2, 0, 1].Perm [0, 1, 2]
+  exact (List.Perm.swap 0 2 [1]).trans (List.Perm.cons 0 (List.Perm.swap 1 2 []))
+example : actionMask (· == 'b') [(2, 'c'), (0, 'a'), (1, 'b')] = some [false, true, false] := by decide
+/-- a key outside `0 … N-1` is the `IndexError` of `mask[i] = …` (excluded by the schema, kept visible in the model) -/
+example : actionMask (fun _ => true) [(0, 'a'), (5, 'b')] = none := by decide
+
+end Primaite.Mask
+
+namespace Primaite.Request
+open Primaite.Mask in
+/-- **C11 end to end on the model**: for every request tree, validator valuation, well-numbered action map (entries in ANY
+file order) and `form_request`: the mask has one bit per action number, and bit `i` is set exactly when executing action
+number `i` now (`get_action(i)` → `form_request` → `__call__`) would reach its handler. -/
+theorem C11_masked_number_iff_reaches {α} (env : Env) (t : Tree) (form : α → List Key) (amap : List (Nat × α))
+    (h : WellNumbered amap) :
+    ∃ r, actionMask (fun a => checkValid env t (form a)) amap = some r ∧ r.length = amap.length ∧
+      ∀ i, i < amap.length → ∃ a, actionOf amap i = some a ∧
+        ∀ d, r[i]? = some (dispatch env t (form a) d).isReached := by
+  obtain ⟨r, hr, hl, hb⟩ := C11_mask_by_action_number (fun a => checkValid env t (form a)) amap h
+  refine ⟨r, hr, hl, ?_⟩
+  intro i hi
+  obtain ⟨a, ha, hv⟩ := hb i hi
+  exact ⟨a, ha, fun d => by rw [hv, C11_mask_iff_reaches env t (form a) d]⟩
+end Primaite.Request
+
+/-! ### tie to the regenerated shape of `PrimaiteGame.action_mask`, `PrimaiteGymEnv.action_masks`, `ActionManager` (Gen/ActionMask.lean) -/
+namespace Primaite.Mask
+open Primaite.Gen.ActionMask in
+/-- the source has the shape `actionMask` / `actionOf` model: a list of `len(action_map)` bits, written BY KEY inside a loop over
+`action_map.items()`, each bit `check_valid(form_request(action[0], action[1]), {})`; the environment hands that array out
+unchanged (or all-true when masking is off); an executed number is looked up BY KEY; the schema demands every number below the
+size as a key; `action_map` is built from the configured mapping key by key. -/
+theorem C11_gen_action_mask_shape :
+    maskSteps = ["mask = [True] * len(agent.action_manager.action_map)",
+                 "for (i, action) in agent.action_manager.action_map.items()",
+                 "request = agent.action_manager.form_request(action_identifier=action[0], action_options=action[1])",
+                 "mask[i] = self.simulation._request_manager.check_valid(request, {})",
+                 "return np.asarray(mask, dtype=np.int8)"] ∧
+    envMaskReturnsGameMask = true ∧ getActionByKey = true ∧ schemaDemandsEveryNumber = true ∧ actionMapBuiltByKey = true ∧
+    stepLooksUpByNumber = true := by decide
+end Primaite.Mask
